@@ -556,6 +556,19 @@ func (w *World) OtherPush(b string, oids []string) error {
 	return err
 }
 
+// OtherDelete applies OtherDelete(b): somebody else deleted the branch on the remote and the server
+// collected the objects nothing there references any more; this clone's remote-tracking ref stays.
+func (w *World) OtherDelete(b string, gone []string) error {
+	w.logf("(on the remote) git update-ref -d refs/heads/%s ; server drops %v", b, gone)
+	if r := w.Env.Git(w.Remote, "update-ref", "-d", "refs/heads/"+b); !r.OK() {
+		return fmt.Errorf("otherdelete: %s", r.All())
+	}
+	for _, o := range gone {
+		w.ServerDelete(o)
+	}
+	return nil
+}
+
 // Stage applies Stage(p, o): content written and added, not committed.
 func (w *World) Stage(p, o string) error { return w.StageIn("main", p, o, "") }
 
